@@ -93,8 +93,11 @@ class Shadow:
         ids = {a.key: a.id for a in self.assets + self.dead_assets}
         for s in self.assocs:
             la = self.lang.assocs[s.ai]
-            out['associations'].append({s.cls: {la['leftField']: [ids[k] for k in s.left],
-                                                la['rightField']: [ids[k] for k in s.right]}})
+            e = {s.cls: {la['leftField']: [ids[k] for k in s.left],
+                         la['rightField']: [ids[k] for k in s.right]}}
+            if s.extras:
+                e['extras'] = s.extras
+            out['associations'].append(e)
         for t in self.attackers:
             out['attackers'][t.id] = {'name': t.name,
                                       'entry_points': {ids[k]: {'attack_steps': list(st)} for k, st in t.eps}}
@@ -105,9 +108,13 @@ def norm_assocs(lst):
     """multiset of (class, {field: sorted ids}) as a sorted list of JSON strings"""
     out = []
     for d in lst:
+        extras = d.get('extras') or {}
+        if hasattr(extras, 'as_dict'):
+            extras = extras.as_dict()
         d = {k: v for k, v in d.items() if k != 'extras'}
         (cls, fields), = d.items()
-        out.append(json.dumps([cls, {f: sorted(int(i) for i in ids) for f, ids in fields.items()}], sort_keys=True))
+        out.append(json.dumps([cls, {f: sorted(int(i) for i in (ids if isinstance(ids, list) else [ids])) for f, ids in fields.items()}, extras],
+                              sort_keys=True, default=str))
     return sorted(out)
 
 
@@ -135,6 +142,7 @@ class Lockstep:
         self.fields = sorted({a['leftField'] for a in self.lang.assocs} | {a['rightField'] for a in self.lang.assocs})
         self.seen_ids, self.seen_names = set(), set()
         self.step_no = 0
+        self.check_every_step = True
 
     def count(self, name, n=1):
         self.counters[name] = self.counters.get(name, 0) + n
@@ -171,7 +179,8 @@ class Lockstep:
         m, sh = self.model, self.sh
         handler = getattr(self, 'op_' + kind)
         handler(*op[1:])
-        self.compare('step %d %s' % (self.step_no, json.dumps(op)))
+        if self.check_every_step:
+            self.compare('step %d %s' % (self.step_no, json.dumps(op)))
 
     def _expect_raise(self, label, fn, must=True):
         """run an operation the shadow considers invalid: it may raise (then
@@ -269,6 +278,22 @@ class Lockstep:
         setattr(self.real[a.key], defense, value)
         a.defenses[defense] = value
         self.count('op:set_defense')
+
+    def op_set_extras(self, ref, extras):
+        a = self._pick(ref, self.sh.assets, self.sh.dead_assets)
+        if a is None or ref[0] != 'live':
+            return
+        self.real[a.key].extras = copy.deepcopy(extras)
+        a.extras = copy.deepcopy(extras)
+        self.count('op:set_extras')
+
+    def op_set_assoc_extras(self, ref, extras):
+        s = self._pick(ref, self.sh.assocs, self.sh.dead_assocs)
+        if s is None or ref[0] != 'live':
+            return
+        self.real[s.key].extras = copy.deepcopy(extras)
+        s.extras = copy.deepcopy(extras)
+        self.count('op:set_assoc_extras')
 
     def op_remove_asset(self, ref):
         sh, m = self.sh, self.model
